@@ -1,0 +1,26 @@
+// +build verif
+
+package tcp
+
+import (
+	tcpip "github.com/brewlin/net-protocol/protocol"
+	"github.com/brewlin/net-protocol/stack"
+)
+
+// VerifState returns the internal state snapshot of a TCP endpoint (the one
+// TCP probes receive), or nil for other endpoint types.
+func VerifState(ep tcpip.Endpoint) *stack.TCPEndpointState {
+	e, ok := ep.(*endpoint)
+	if !ok {
+		return nil
+	}
+	if !e.workMu.TryLock() {
+		return nil // held for the whole handshake
+	}
+	defer e.workMu.Unlock()
+	if e.snd == nil || e.rcv == nil {
+		return nil
+	}
+	s := e.completeState()
+	return &s
+}
